@@ -2,7 +2,8 @@
    Only statements, closed by `exact`.  The full-strength statements that are not (yet) proved are the
    Definitions C11_*_statement of Proofs/Idna_Hyp.v; see theorem_notes in tools/props_d/C11.py. *)
 From RU Require Import Base.Prelude Base.Utf8 Base.U32_c13 Gen.Tables Model.Punycode Model.Uts46
-  Proofs.Idna_Sim Proofs.Idna_Api Proofs.Idna_Known Proofs.Idna_Hyp Proofs.Idna_Tables Proofs.Idna_Redisc.
+  Proofs.Idna_Sim Proofs.Idna_Api Proofs.Idna_Known Proofs.Idna_Hyp Proofs.Idna_Tables Proofs.Idna_Redisc
+  Proofs.Idna_C10_Deny Proofs.Idna_C10_Prefix.
 
 (* the core: for EVERY adapter, the fail-fast run of process_inner returns early exactly when the
    marking run sets had_errors, and otherwise the two runs produce the same buffers *)
@@ -13,15 +14,15 @@ Check C11_inner_sim : forall A cfg hy deny d, Redisc A cfg deny ->
   inner_sim (process_inner A cfg true hy deny d) (process_inner A cfg false hy deny d).
 Print Assumptions C11_inner_sim.
 
-(* the premise Redisc follows from three elementary facts: the adapter maps the empty text to the
-   empty text, upper-case letters are in the deny list (C10_deny_upper: true of EMPTY, STD3, URL), and
-   has_punycode_prefix accepts exactly the sixteen spellings of xn-- on ASCII text (XnPrefixSpec, a
-   statement about the regenerated mask constants; sampled in C12_consts, not proved in general) *)
+(* the premise Redisc follows from two elementary facts: the adapter maps the empty text to the empty text (an
+   AdapterOK fact, H0), and upper-case letters are in the deny list (C10_deny_upper / C10_valid_deny: true of every
+   deny list the API can build).  The third ingredient, the characterisation of has_punycode_prefix on ASCII text
+   (XnPrefixSpec), is the theorem C10_xn_prefix and no longer a premise. *)
 Theorem C11_redisc : forall A cfg deny,
-  map_normalize A [] = [] -> DenyUpper deny -> XnPrefixSpec -> Redisc A cfg deny.
-Proof. exact redisc_holds. Qed.
+  map_normalize A [] = [] -> DenyUpper deny -> Redisc A cfg deny.
+Proof. exact redisc_of_adapter. Qed.
 Check C11_redisc : forall A cfg deny,
-  map_normalize A [] = [] -> DenyUpper deny -> XnPrefixSpec -> Redisc A cfg deny.
+  map_normalize A [] = [] -> DenyUpper deny -> Redisc A cfg deny.
 Print Assumptions C11_redisc.
 
 (* same verdict, API level: mark-errors error => fail-fast error; fail-fast error => mark-errors error,
